@@ -46,13 +46,15 @@ ASSUMPTIONS = [
 TECHNIQUE = ("property-based search (Hypothesis) over generated FITS headers, pixel positions and call "
              "histories; independent longdouble FITS-WCS reference transform (pinned against a 40-digit "
              "vector construction), independent least-squares inverse polynomial, fresh-object differential")
-LEVEL_TEXT = ("exploration: every generated header/pixel/history satisfied the reference within the stated "
-              "tolerances, apart from the open finding wcs-polar-find (root finder near the poles)")
+LEVEL_TEXT = ("exploration: every generated header/pixel/history satisfied the FITS-paper reference within the "
+              "stated tolerances (1e-9 deg forward, 1e-6 px inverse with root finding, fitted-polynomial accuracy "
+              "without); shows the property on the cases explored, not for all headers")
 
 LD = sphere.LD
 TOL_SKY = 1e-9          # deg, statement
 TOL_PIX = 1e-6          # px, statement
-POLAR_FIND_LAT = 89.0   # deg: open finding wcs-polar-find applies to |dec| above this (measured, see notes)
+EPS64 = float(np.finfo("f8").eps)
+POLAR_FIND_LAT = 89.0   # deg: class label only (the root finder used to stall above this latitude; repaired)
 
 KINDS = ["TAN", "TANPV", "TPV", "SIP"]
 
@@ -285,7 +287,7 @@ def invfind_cases(draw):
 
 
 def polar_find_class(h, lats):
-    """Input class of the open finding wcs-polar-find: a header with distortion and a sky
+    """Input class of the repaired defect find-polar: a header with distortion and a sky
     position (or reference point) within 90-POLAR_FIND_LAT degrees of a pole."""
     return wcsref.distorted(h) and (abs(h["crval2"]) > POLAR_FIND_LAT or
                                     float(np.max(np.abs(lats))) > POLAR_FIND_LAT)
@@ -313,9 +315,8 @@ def check_invfind(case, ctx):
     d = np.hypot(x - px, y - py)
     i = int(np.argmax(d))
     ctx.count("find:max-residual>1e-7px" if d[i] > 1e-7 else "find:max-residual<=1e-7px")
-    if d[i] > TOL_PIX and polar_find_class(h, lat) and ctx.finding_open("wcs-polar-find"):
-        ctx.count("find:polar-residual-excused")
-        return
+    if polar_find_class(h, lat):
+        ctx.count("find:polar-class(distorted, |dec|>89)")
     require(d[i] <= TOL_PIX, "sky2image(find=True) of the sky position of pixel %r returns (%.9f, %.9f): %.3g px "
             "off (> %g); CRVAL2 = %r, dec = %.6f", pts[i], x[i], y[i], d[i], TOL_PIX, h["crval2"], lat[i])
 
@@ -377,7 +378,17 @@ def independent_inverse_residual(h, pts, ngrid=36):
     res = A @ coef - dst
     if wcsref.has_pv(h):
         res = res @ cdinv.T
-    return float(np.max(np.hypot(res[:, 0], res[:, 1])))
+    # conditioning of the documented fit: monomials of the *unshifted* plane coordinates (that is the
+    # documented design matrix), columns equilibrated.  It grows like (offset/half-width)^order when
+    # CRPIX lies far outside the image.
+    An = _monomials(src[:nfit, 0], src[:nfit, 1], order, constant)
+    An = An / np.linalg.norm(An, axis=0)
+    kappa = float(np.linalg.cond(An))
+    if wcsref.has_pv(h):
+        rpix = float(np.max(np.hypot(*(dst[:nfit] @ cdinv.T).T)))
+    else:
+        rpix = float(np.max(np.hypot(x[:nfit] - h["crpix1"], y[:nfit] - h["crpix2"])))
+    return float(np.max(np.hypot(res[:, 0], res[:, 1]))), kappa, rpix
 
 
 def check_invpoly(case, ctx):
@@ -394,12 +405,20 @@ def check_invpoly(case, ctx):
     d = np.hypot(x - px, y - py)
     i = int(np.argmax(d))
     if distort and wcsref.distorted(h):
-        r = independent_inverse_residual(h, pts)
-        tol = 5.0 * r + TOL_PIX
+        r, kappa, rpix = independent_inverse_residual(h, pts)
+        # "fitted-polynomial accuracy": approximation error of a polynomial of the documented order (r, from
+        # the independent fit) plus the float64 error any backward-stable solution of the documented
+        # least-squares problem carries, eps * cond * |solution| (see DESIGN.md section 10)
+        cond_term = 100.0 * EPS64 * kappa * rpix
+        tol = 5.0 * r + TOL_PIX + cond_term
+        ctx.count("poly:conditioning-term>1e-6px" if cond_term > TOL_PIX else "poly:conditioning-term<=1e-6px")
+        if cond_term > 1e-2:
+            ctx.count("poly:conditioning-term>1e-2px")
         ctx.count("poly:ratio<=1" if d[i] <= r + TOL_PIX else "poly:ratio<=5" if d[i] <= tol else "poly:ratio>5")
         require(d[i] <= tol, "sky2image(find=False) of the sky position of pixel %r is %.3g px off; an independent "
                 "least-squares inverse polynomial of the same order leaves at most %.3g px over the image "
-                "(allowed 5x + %g)", pts[i], d[i], r, TOL_PIX)
+                "(allowed 5x + %g + %.3g px for the conditioning %.3g of the documented fit)", pts[i], d[i], r,
+                TOL_PIX, cond_term, kappa)
     else:
         require(d[i] <= TOL_PIX, "sky2image(find=False%s) without distortion: pixel %r comes back %.3g px off "
                 "(> %g)", "" if distort else ", distort=False", pts[i], d[i], TOL_PIX)
